@@ -130,7 +130,7 @@ CLAIMED = {
         "DESIGN.md 3 C19",
     ),
     "C20": (
-        "Hypothesis grammar of STRL trees (incl. Max over strategy variants with their own machine count and duration) lowered by the repository's C++ code (driver built from /repo sources with a sequential TBB shim); differential against an independent Python semantics of STRL with exhaustive leaf-decision enumeration; solution-pool enumeration of the rebuilt MILP fed back through populateResults(); metamorphic relations over pruning passes and discretisation",
+        "Hypothesis grammar of STRL trees (incl. Max over strategy variants with their own machine count and duration, and congested single-partition shapes) lowered by the repository's C++ code (driver built from /repo sources with a sequential TBB shim); differential against an independent Python semantics of STRL with exhaustive leaf-decision enumeration; solution-pool enumeration of the rebuilt MILP fed back through populateResults(); metamorphic relations over pruning passes and discretisation",
         "Translation validation by generated search: for each generated tree the optimum and up to 30 feasible points of the emitted model are decoded and judged by a reference semantics (capacity at every instant, exact Choose amounts/windows, Min/Max/LessThan structure, utility == objective, read-back placements); optimum == brute-force optimum; optimum invariant under the pruning passes; coarser grids only lose utility. Exploration over trees, exhaustive over leaf decisions per tree.",
         "Model solved with gurobipy after a translation mirroring GurobiSolver.cpp; WindowedChoose windows on their own grid (as the front-end passes them); trees with > 40 000 decision vectors are discarded.",
         "DESIGN.md 3 C20",
